@@ -242,6 +242,8 @@ def history_dist(case):
         "dflt_decorator": sum(1 for f in fs if f.get("default") == "decorator"),
         "side_base": "+".join((cs.get("side_base") or {}).get("pos", "-")[0] for cs in cl),
         "eq_twin": bool(cl[0].get("eq_twin")),
+        "cb_twin": bool(cl[0].get("cb_twin")),
+        "conv_shared": sum(1 for f in fs if f.get("conv_shared") and f.get("converter") in ("c01", "c11")),
         "dflt_kinds": ",".join(sorted({f.get("dflt_kind", "str") for f in fs if f.get("default") == "value"})) or "-",
         "cb_odd": ",".join(sorted({f["cb_odd"] for f in fs if f.get("cb_odd")})) or "-",
         "factory_Factory": sum(1 for f in fs if f.get("default") == "factory" and f.get("factory_style") == "Factory"),
@@ -267,7 +269,7 @@ def shrink_history(case, remake):
     h = case["hspec"]
     call = case["call"]
     for ci, cs in enumerate(h["classes"]):
-        for key in ("siblings", "deco", "field_transformer", "side_base", "eq_twin", "post_mode"):
+        for key in ("siblings", "deco", "field_transformer", "side_base", "eq_twin", "cb_twin", "post_mode"):
             if cs.get(key):
                 h2 = copy.deepcopy(h)
                 h2["classes"][ci].pop(key)
@@ -294,7 +296,7 @@ def shrink_history(case, remake):
             h2["classes"][ci]["deco"]["shared"] = False
             yield from remake(h2, call)
         for fi, f in enumerate(cs.get("fields", [])):
-            for key in ("v_shared", "v_deco", "v_and", "cb_odd", "factory_style", "dflt_kind"):
+            for key in ("v_shared", "v_deco", "v_and", "cb_odd", "factory_style", "dflt_kind", "conv_shared", "conv_prime"):
                 if f.get(key) and f.get(key) not in ("str", "sugar"):
                     h2 = copy.deepcopy(h)
                     h2["classes"][ci]["fields"][fi].pop(key)
@@ -353,12 +355,15 @@ def shrink(case):
         for ci in range(len(h["classes"]) - 1):
             h2 = copy.deepcopy(h)
             eb, er, tw = h2["classes"][0].get("exc_base"), h2["classes"][0].get("exc_root"), h2["classes"][0].get("eq_twin")
+            tw2 = h2["classes"][0].get("cb_twin")
             del h2["classes"][ci]
             h2["classes"][0]["exc_base"] = eb
             if er:
                 h2["classes"][0]["exc_root"] = er
             if tw:
                 h2["classes"][0]["eq_twin"] = True
+            if tw2:
+                h2["classes"][0]["cb_twin"] = True
             yield from _remake(h2, case["call"])
     for ci, cs in enumerate(h["classes"]):
         for k, v in (("slots", None), ("kw_only", False), ("cache_hash", False), ("pre", "none"), ("post", False),
